@@ -364,6 +364,19 @@ def run_real(case, offset=None):
                     st.increment(v, nlive=m)
             out["logZ_rect"] = float(st.logZ)
             st.finalise()
+            # an INTERIM finalise (a refined estimate asked for mid-run) must not change what the final one returns: the
+            # trapezoid is a function of the stored points only (seeded change C02-hA made finalise remember its first answer)
+            st2 = _NSIntegralState(n, track_gradients=case.get("track", False), expectation=spell)
+            half = len(ll) // 2
+            for i, (v, m, d) in enumerate(zip(ll, case["ns"], case["use_default"])):
+                if i == half and half > 0:
+                    st2.finalise()
+                if d:
+                    st2.increment(v)
+                else:
+                    st2.increment(v, nlive=m)
+            st2.finalise()
+            out["logZ_after_interim_finalise"] = float(st2.logZ)
         out["logZ"] = float(st.logZ)
         out["log_vols"] = np.array(st.log_vols, dtype=float)
         out["logLs"] = np.array(st.logLs, dtype=float)
@@ -441,6 +454,11 @@ def oracle(ctx, case, real, ref, fail=None):
     if real["cw"] != "ok":
         fail("compute_weights:raised", f"compute_weights raised {real['cw']} on a valid sequence")
     shifted = lambda v: v + off  # noqa
+    if real["state"] == "ok" and "logZ_after_interim_finalise" in real:
+        a, b = real["logZ"], real["logZ_after_interim_finalise"]
+        if not (a == b or (math.isnan(a) and math.isnan(b))):
+            fail("_NSIntegralState.finalise:interim-call", f"finalise() after an interim finalise() mid-run returns {b!r}; the same "
+                 f"points without the interim call give {a!r}")
     if real["state"] == "ok":
         if real["ns"] != ref["sched"]:
             fail("NestedSampler.finalise:schedule", f"live counts seen by the state {real['ns'][-6:]} differ from the documented "
